@@ -68,6 +68,15 @@ VECTORS = [
     (["flow"] + NONE + ["1.2.3", "--branch-rules", "[(pattern: \"x\""], None),
     (["flow"] + NONE + ["1.2.3", "--pre-release-label", "gamma"], None),
     (["flow", "--source", "stdin"], RON_OK),
+    (["render", "1.0.0-post.x.post"], None),
+    (["render", "1.0.0-epoch.x.epoch.1"], None),
+    (["render", "1.0.0-post.dev.post", "--output-format", "pep440"], None),
+    (["render", "1.0.0-alpha.alpha.1.rc.rc"], None),
+    (["version"] + NONE + ["1.0.0-dev.x.dev.2"], None),
+    (["version"] + NONE + ["1.2.3", "--output-template", "{{ hash_int(value='x', length=100000000000000, allow_leading_zero=true) }}"], None),
+    (["version"] + NONE + ["1.2.3", "--output-template", "{{ hash_int(value='x', length=70000, allow_leading_zero=true) | length }}"], None),
+    (["version"] + NONE + ["1.2.3", "--output-template", "{{ hash(value='x', length=100000000000000) }}{{ prefix(value='x', length=18446744073709551615) }}"], None),
+    (["version"] + NONE + ["1.2.3", "--output-template", "{% macro f() %}{{ self::f() }}{% endmacro f %}{{ self::f() }}"], None),
     (["render", "1.2.3"], None),
     (["render", "1.2.3-alpha.1+b.7", "--output-format", "pep440"], None),
     (["render", "1!2.0rc1.post2.dev3+x.1", "--input-format", "pep440", "--output-format", "semver"], None),
@@ -124,7 +133,10 @@ def run(tier="quick", seed=0):
             if rc is None:
                 bad("no-termination", f"`zerv {show}` did not terminate within 60 s")
                 return None
-            if rc < 0 or rc == 101 or b"panicked at" in err:
+            if (rc < 0 or rc == 134) and any("macro" in a for a in argv):
+                bad("tera-macro-recursion", f"`zerv {show}` aborts (status {rc}): {err.decode('utf-8', 'replace')[-160:]!r}")
+                return None
+            if rc < 0 or rc in (101, 134) or b"panicked at" in err:
                 bad("panic", f"`zerv {show}` panicked or was killed (status {rc}): {err.decode('utf-8', 'replace')[:300]!r}")
                 return None
             if rc == 0 and not out.strip() and argv:   # no sub-command: nothing was requested
